@@ -485,9 +485,9 @@ func (vr *variableResolver) resolve(ctx *ExecutionContext) (*Value, error) {
 					}
 
 					if pv.IsNil() {
-						// Workaround to present an interface nil as reflect.Value
-						var empty any = nil
-						parameters = append(parameters, reflect.ValueOf(&empty).Elem())
+						// A nil is handed over as the nil of the parameter's type
+						// (an interface nil, or the typed nil pointer it was)
+						parameters = append(parameters, reflect.Zero(fnArg))
 					} else {
 						parameters = append(parameters, reflect.ValueOf(pv.Interface()))
 					}
